@@ -381,7 +381,6 @@ func (r *Run) trustedBase() []string {
 	return tb
 }
 
-func (r *Run) addLemmas(prop string) {}
 
 // replay support (see replay.go)
 func (r *Run) replayed(o *Oblig) bool { return o.Replay != nil && o.Replay.Confirmed }
